@@ -52,13 +52,32 @@ Definition alg_value (allow_text : bool) (v : option gv) : res Z :=
   | Some _ => Rej EInvalidAlg
   end.
 
+(* lookupLabel: integer labels are compared by value, whichever Go integer
+   type spells them: a direct hit on the normalised key first, else any key
+   that normalises to it (Go's map iteration picks one; the list order stands
+   for it, and callers reject maps in which two keys normalise alike). *)
+Fixpoint nfind (want : gv) (h : list gv) : option gv :=
+  match h with
+  | k :: v :: r =>
+      match normalize_label k with
+      | Some k' => if key_eqb want k' then Some v else nfind want r
+      | None => nfind want r
+      end
+  | _ => None
+  end.
+Definition nlookup (l : gv) (h : list gv) : option gv :=
+  match normalize_label l with
+  | None => None
+  | Some want => match glookup want h with Some v => Some v | None => nfind want h end
+  end.
+
 Definition alg_of (p : option (list gv)) : res Z :=
-  alg_value true (glookup (lbl c_HeaderLabelAlgorithm) (hmap p)).
+  alg_value true (nlookup (lbl c_HeaderLabelAlgorithm) (hmap p)).
 Definition payload_hash_alg_of (p : option (list gv)) : res Z :=
-  alg_value false (glookup (lbl c_HeaderLabelPayloadHashAlgorithm) (hmap p)).
+  alg_value false (nlookup (lbl c_HeaderLabelPayloadHashAlgorithm) (hmap p)).
 
 Definition has_label (h : list gv) (n : Z) : bool :=
-  match glookup (lbl n) h with Some _ => true | None => false end.
+  match nlookup (lbl n) h with Some _ => true | None => false end.
 
 (* ---- ensureCritical ---- *)
 Definition ensure_critical (value : gv) (h : list gv) : bool :=
@@ -66,7 +85,7 @@ Definition ensure_critical (value : gv) (h : list gv) : bool :=
   | GArr labels =>
       negb (Nat.eqb (length labels) 0) &&
       forallb (fun l => (can_int l || can_tstr l) &&
-                        match glookup l h with Some _ => true | None => false end) labels
+                        match nlookup l h with Some _ => true | None => false end) labels
   | _ => false
   end.
 
